@@ -154,6 +154,8 @@ inductive Ev where
   | shutdownClose                 -- close_connection (daemon shutdown)
   | cleanup                       -- MHD_cleanup_connections frees the connection
   | appQueue (r : Resp) (env : IdleEnv)  -- MHD_queue_response called by the application outside the access handler
+  | startFailed                   -- new_connection_process_ fails after MHD_CONNECTION_NOTIFY_STARTED (thread creation,
+                                  -- epoll_ctl(ADD)): its cleanup path delivers NOTIFY_CLOSED and frees the connection at once
   | upgradeDone                   -- upgraded connection closed by the application (or daemon shutdown) and taken
                                   -- off the suspended list by resume_suspended_connections
   deriving Repr, Inhabited
@@ -745,10 +747,16 @@ def step {σ} (cfg : Cfg) (app : App σ) (c : Conn σ) (e : Ev) : Out σ :=
   match e with
   | .start =>
       if c.started then (c, []) else ({ c with started := true, inEpollSet := cfg.epoll }, [.connStart])
+  | .startFailed =>
+      -- (a connection refused before that point — limits, accept policy, allocation — gets no notification
+      --  at all: no event, the record stays unstarted and every later event is ignored)
+      if c.started then (c, [])
+      else ({ c with started := true, inCleanup := true, cleaned := true, state := .closed }, [.connStart, .connClose])
   | _ =>
     if !c.started ∨ c.cleaned then (c, []) else
     match e with
     | .start => (c, [])
+    | .startFailed => (c, [])
     | .recv _ | .recvEof | .recvErr _ => if c.inCleanup then (c, []) else handleRead c e
     | .idle env => if c.inCleanup then (c, []) else handleIdle cfg app env c
     | .write r => if c.inCleanup then (c, []) else handleWrite c r
